@@ -1,7 +1,7 @@
 (* Properties/C07.v -- C07: null forcing leaves the texture unchanged; unsupported regimes are rejected *)
 From Coq Require Import Reals ZArith List.
 From Coquelicot Require Import Hierarchy Derive.
-From PV Require Import Num NumR Model_core Model_minerals Proofs_core Proofs_total Proofs_minerals Proofs_rhs Inst_core Proofs_flow Proofs_path.
+From PV Require Import Num NumR Model_core Model_minerals Proofs_core Proofs_total Proofs_minerals Proofs_rhs Inst_core Proofs_flow Proofs_path Proofs_path2 Proofs_path3.
 From PV.gen Require Import Gen_core.
 Import ListNotations.
 Open Scope R_scope.
@@ -90,3 +90,28 @@ Proof. exact derivs_inst_2. Qed.
 
 Example C07_nonvacuous : (5 <> 0 /\ 5 <> 1 /\ 5 <> 4 /\ 5 <> 6 /\ 5 <> 7)%Z /\ ~ valid_pair 1 0.
 Proof. exact C07_nonvacuous_proof. Qed.
+
+(* zero velocity gradient on [a,b]: the strain-rate scale is then forced to be 0 (is_eigmax of the zero matrix
+   has the single solution 0: C07_zero_gradient_scale_is_zero), so EVERY state component -- the F block, every
+   orientation entry, every volume fraction -- is constant along every exact solution: any regime ordinal
+   (unsupported ones included), any mineral, any parameters *)
+Theorem C07_zero_gradient_scale_is_zero : forall m : R, is_eigmax (@sym9 NumR (repeat 0 9)) m -> m = 0.
+Proof. exact eigmax_zero. Qed.
+
+Theorem C07_zero_velocity_gradient_state_constant :
+  forall (regime ph fb : Z) (n : nat) (ass : list Z) (frs Sd : list R) (p nn lam M : R)
+         (Lh : R -> list R) (sh : R -> R) (y : nat -> R -> R) (a b : R),
+  a <= b ->
+  (forall t, a <= t <= b -> Lh t = repeat 0 9) ->
+  (forall t, a <= t <= b -> is_eigmax (@sym9 NumR (Lh t)) (sh t)) ->
+  (forall i t, a <= t <= b ->
+     is_derive (y i) t (f regime ph fb n ass frs Sd p nn lam M Lh sh t (fun j => y j t) i)) ->
+  forall i, y i b = y i a.
+Proof. exact zero_velocity_gradient_state_constant. Qed.
+
+(* non-vacuity: 0 IS the strain-rate scale of the zero gradient, and every constant state is an exact solution *)
+Example C07_zero_velocity_gradient_nonvacuous :
+  is_eigmax (@sym9 NumR (repeat 0 9)) 0 /\
+  (forall (y0 : nat -> R) i t, is_derive (fun _ : R => y0 i) t
+     (f 4 0 0 2 [0%Z] [1] [] 1.5 3.5 30 125 (fun _ => repeat 0 9) (fun _ => 0) t (fun j => y0 j) i)).
+Proof. exact zero_gradient_nonvacuous_proof. Qed.
